@@ -269,7 +269,7 @@ class FeatureInterval(AbstractFeatureInterval):
         return FeatureInterval(
             interval_starts=[x.start for x in chromosome_location.blocks],
             interval_ends=[x.end for x in chromosome_location.blocks],
-            strand=location.strand,
+            strand=chromosome_location.strand,
             guid=guid,
             feature_guid=feature_guid,
             qualifiers=qualifiers,
